@@ -92,6 +92,8 @@ func registerWitnesses(t *testing.T, rec *ev.Rec) map[string]bool {
 	return excluded
 }
 
+const f29 = "F29-split-files-unused-imports"
+
 // excuse: an open finding whose trigger class is present in the input and whose signature matches.
 func excuse(rec *ev.Rec, c *genCase, kind, detail string) bool {
 	for _, w := range witnesses {
@@ -220,6 +222,10 @@ func TestC26_Random(t *testing.T) {
 		rec.Case(c.key+"|"+f.String(), nt, cls...)
 		if rec.WantSample() {
 			rec.Sample(sample(c, f.String(), map[string]interface{}{"structs": len(r.Structs)}))
+		}
+		if r.UnusedImports != "" && !rec.Excuse(f29, f.SplitFiles > 0) {
+			rt.Fatalf("C26 violated (build): the files written with -output_dir do not compile as generated:\n%s\ncommand: %s\n%s",
+				pipeline.Trunc(r.UnusedImports, 3000), r.Gen.CmdLine(), describe(c, f.String(), ""))
 		}
 		kind, detail := c26Verdict(r)
 		if kind == "" {
